@@ -194,7 +194,7 @@ func runCheck(id, tier string, seed uint64) int {
 		cores = 16
 	}
 	sem := make(chan struct{}, cores)
-	var mu sync.Mutex
+	var mu, acq sync.Mutex
 	var results []*shardResult
 	maxStage := 0
 	for _, j := range jobs {
@@ -221,9 +221,11 @@ func runCheck(id, tier string, seed uint64) int {
 					if weight > cores {
 						weight = cores
 					}
+					acq.Lock() // all tokens of one shard are taken together, or shards could starve each other
 					for i := 0; i < weight; i++ {
 						sem <- struct{}{}
 					}
+					acq.Unlock()
 					rs := runShard(bins[j.variant], id, tier, seed, j, s, work)
 					for i := 0; i < weight; i++ {
 						<-sem
